@@ -576,6 +576,9 @@ func C18(c *core.Ctx) {
 			m := senders
 			if o.Kind == "recv" {
 				m = receivers
+			} else if o.Kind == "close" {
+				// a receiver of a channel that is only ever closed waits for the goroutine that closes it
+				m = senders
 			} else if o.Kind != "send" {
 				continue
 			}
